@@ -10,11 +10,11 @@ CONSTANTS
   Deviations <- NoDev
   ConeIgnoresSwap = FALSE
 VIEW view
+INVARIANT RejectClean
 INVARIANT RegIsRun
 INVARIANT NormOne
 INVARIANT QueriesAgree
 INVARIANT NoStaleRead
-INVARIANT RejectClean
 INVARIANT RecordInStep
 INVARIANT StoreCurrent
 CHECK_DEADLOCK FALSE
